@@ -71,18 +71,21 @@ def rightsStr (p : Rules.Pos) : String := b01 p.wk ++ b01 p.wq ++ b01 p.bk ++ b0
 def onDump (s : St) (rest : String) : St := Id.run do
   let mut s := { s with lastD := rest }
   let mine := dump s.mb
+  -- at the root of a path the state is what `Board::from_fen` built: a difference there is the FEN reader's (C07)
+  let atRoot := s.stack.isEmpty
+  let pr (p : String) : String := if atRoot then "C07," ++ p else p
   if mine != rest then
-    s := s.report "model" "C02,C03,C04" "state" s!"impl=[{rest}] model=[{mine}]"
+    s := s.report "model" (pr "C02,C03,C04") "state" s!"impl=[{rest}] model=[{mine}]"
   let im := parseDump rest
   -- spec: placement, turn, rights, ep, clocks
   let sp := s.sp
   let placementOk := (List.range 64).all fun sq => implPieceAt im.bbs sq == sp.at sq
-  if !placementOk then s := s.report "spec" "C03" "placement" s!"impl=[{rest}] spec=[{String.ofList (Rules.render sp)}]"
-  if im.turnWhite != (sp.turn == .white) then s := s.report "spec" "C03" "turn" s!"impl=[{rest}]"
-  if im.rights != rightsStr sp then s := s.report "spec" "C03" "castling-rights" s!"impl={im.rights} spec={rightsStr sp}"
-  if im.ep != sp.ep then s := s.report "spec" "C03" "en-passant-file" s!"impl={im.ep} spec={sp.ep}"
-  if im.lastClock != sp.half then s := s.report "spec" "C03" "halfmove-clock" s!"impl={im.lastClock} spec={sp.half}"
-  if im.fullmove != sp.full then s := s.report "spec" "C03" "fullmove" s!"impl={im.fullmove} spec={sp.full}"
+  if !placementOk then s := s.report "spec" (pr "C03") "placement" s!"impl=[{rest}] spec=[{String.ofList (Rules.render sp)}]"
+  if im.turnWhite != (sp.turn == .white) then s := s.report "spec" (pr "C03") "turn" s!"impl=[{rest}]"
+  if im.rights != rightsStr sp then s := s.report "spec" (pr "C03") "castling-rights" s!"impl={im.rights} spec={rightsStr sp}"
+  if im.ep != sp.ep then s := s.report "spec" (pr "C03") "en-passant-file" s!"impl={im.ep} spec={sp.ep}"
+  if im.lastClock != sp.half then s := s.report "spec" (pr "C03") "halfmove-clock" s!"impl={im.lastClock} spec={sp.half}"
+  if im.fullmove != sp.full then s := s.report "spec" (pr "C03") "fullmove" s!"impl={im.fullmove} spec={sp.full}"
   -- the union boards must be the unions
   let u (l : List Nat) := l.foldl (fun a i => a ||| im.bbs.getD i 0) 0
   if im.bbs.getD 12 0 != u [0,1,2,3,4,5] || im.bbs.getD 13 0 != u [6,7,8,9,10,11] || im.bbs.getD 14 0 != u [12,13] then
